@@ -283,6 +283,7 @@ def run(ctx):
         rep.unk('J2', 'a_trajbell_gen', str(e))
     magnitude_only(ctx)
     rep.floor('J5', 4)
+    rep.floor('J6', 2)
     rep.floor('J1', 5)
     rep.floor('J1h', 6)
     rep.floor('J2', 5)
@@ -406,6 +407,50 @@ def final_fields(dom, lf):
     return out
 
 
+def result_record(rep, fname, fn, dom, lv, res, total=None):
+    """J6: a planning path that reports success (non-zero duration) has written every field the evaluators read - a field left as it was
+    makes the evaluators answer from the previous trajectory - and the duration it returns is the one it stored"""
+    S = lambda n: sp.Symbol(n, real=True)
+    fields = set(dom.names.values())
+    read = set()
+    for f, (fn2, dom2, lv2) in (res or {}).items():
+        for l in lv2:
+            terms = [l.ret] + [x for c in l.pc for x in ((c.a, c.b) if isinstance(c, alg.Cond) else [a_ for cc in atoms_of(c) for a_ in (cc.a, cc.b)])]
+            for t_ in terms:
+                try:
+                    read |= set(str(x) for x in sp.sympify(t_).free_symbols)
+                except Exception:
+                    pass
+    need = sorted(fields & read)
+    probs, n = [], 0
+    for lf in lv:
+        r = lf.ret
+        if r is None or r is TOP:
+            continue
+        ff = final_fields(dom, lf)
+        if sp.sympify(r) == 0:
+            continue
+        n += 1
+        missing = [f for f in need if S(f) not in ff]
+        if missing:
+            probs.append('a successful planning path leaves %s as it was (path %s)' % (', '.join(missing), str(lf.pc)[-120:]))
+            continue
+        if sp.sympify(r).has(sp.zoo, sp.nan, sp.oo) or sp.sympify(ff[S('t')]).has(sp.zoo, sp.nan, sp.oo):
+            continue          # a clamp combination under which this branch divides by v0 + v1 = 0: the branch is not taken for such requests
+        if not alg.sqrt_zero(sp.sympify(r) - sp.sympify(ff[S('t')])):
+            probs.append('returns %s, the stored duration is %s' % (r, ff[S('t')]))
+        if total is not None and not alg.sqrt_zero(sp.sympify(ff[S('t')]) - sum(sp.sympify(ff[S(x)]) for x in total)):
+            probs.append('the stored duration %s is not %s' % (ff[S('t')], ' + '.join(total)))
+    loc = fn.loc(fn.entry.instrs[0])
+    if not need or not n:
+        rep.unk('J6', fname, 'no successful planning path / no fields read by the evaluators found', loc=loc)
+    elif probs:
+        rep.bad('J6', fname, '; '.join(sorted(set(probs))[:2])[:600], loc=loc, key='%s: result record' % fname)
+    else:
+        rep.ok('J6', fname, 'all %d successful planning paths store every field the evaluators read (%s) and return the stored duration%s' % (
+            n, ', '.join(need), (' = ' + ' + '.join(total)) if total else ''), loc=loc, sample={'fn': fname, 'paths': n, 'fields': need})
+
+
 def trap_gen(ctx, res, par):
     rep = ctx.rep
     fn, dom, lv = gen_leaves(ctx, 'trajtrap', 'a_trajtrap_gen', 'a_trajtrap', ['vm', 'ac', 'de', 'p0_', 'p1_', 'v0_', 'v1_'])
@@ -414,6 +459,7 @@ def trap_gen(ctx, res, par):
         return
     loc = fn.loc(fn.entry.instrs[0])
     S = lambda n: sp.Symbol(n, real=True)
+    result_record(rep, 'a_trajtrap_gen', fn, dom, lv, res)
     # boundary equations of the evaluators (from J1's leaves): continuity of pos and vel at ta, td, t and at 0
     eqs = [
         ('pos continuous at ta', S('p0') + S('v0') * S('ta') + sp.Rational(1, 2) * S('ac') * S('ta') ** 2 - S('pa')),
@@ -502,6 +548,7 @@ def bell_gen(ctx, res, parb):
     if res is None:
         rep.unk('J2', 'a_trajbell_gen', 'evaluators not analysed')
         return
+    result_record(rep, 'a_trajbell_gen', fn, dom, lv, res, total=('ta', 'tv', 'td'))
     bounds = [S('taj'), S('ta') - S('taj'), S('ta'), S('ta') + S('tv'), S('t') - S('td') + S('tdj'), S('t') - S('tdj')]
     ok = bad = 0
     probs = []
